@@ -108,6 +108,22 @@ impl Repeat for HashRepeat {
     }
 }
 
+#[cfg(feature = "verif-hooks")]
+impl HashRepeat {
+    /// Returns all the `(hash, count)` entries of the repetition table (for external monitors)
+    pub fn verif_entries(&self) -> Vec<(u64, usize)> {
+        self.0.iter().map(|(k, v)| (*k, *v)).collect()
+    }
+}
+
+#[cfg(feature = "verif-hooks")]
+impl<R: Repeat> BaseMoveChain<R> {
+    /// Returns the repetition table of the chain (for external monitors)
+    pub fn verif_repeat(&self) -> &R {
+        &self.repeat
+    }
+}
+
 /// Convenience instantiation of [`BaseMoveChain`] with default repetition table
 pub type MoveChain = BaseMoveChain<HashRepeat>;
 
